@@ -616,6 +616,21 @@ static Token *subst(Token *tok, MacroArg *args) {
       if (tok->next->kind == TK_EOF)
         error_tok(tok, "'##' cannot appear at end of macro expansion");
 
+      // The right operand is `#param`: the string literal that # makes
+      // of the argument is the token to paste.
+      if (equal(tok->next, "#")) {
+        MacroArg *sarg = find_arg(args, tok->next->next);
+        if (!sarg)
+          error_tok(tok->next->next, "'#' is not followed by a macro parameter");
+        Token *str = stringize(tok->next, sarg->tok);
+        str->has_space = tok->next->has_space;
+        bool has_space = cur->has_space;
+        *cur = *paste(cur, str);
+        cur->has_space = has_space;
+        tok = tok->next->next->next;
+        continue;
+      }
+
       MacroArg *arg = find_arg(args, tok->next);
       if (arg) {
         if (arg->tok->kind != TK_EOF) {
@@ -654,6 +669,13 @@ static Token *subst(Token *tok, MacroArg *args) {
         // Both operands are empty and the result is the left operand of
         // another ##: continue with the empty `rhs` in the place of `tok`.
         if (arg2 && arg2->tok->kind == TK_EOF && equal(rhs->next, "##")) {
+          tok = rhs;
+          continue;
+        }
+
+        // An empty operand pasted with `#param` is the string literal
+        // that # makes: continue with the # operator.
+        if (equal(rhs, "#")) {
           tok = rhs;
           continue;
         }
